@@ -181,3 +181,68 @@ def same_def(flow: Flow, a: ast.Name, b: ast.Name) -> bool:
 def single_def(flow: Flow, n: ast.Name):
     ds = flow.defs_of(n)
     return ds[0] if len(ds) == 1 else None
+
+
+# ---- typed accessor signatures (E10) ---------------------------------------------------
+def module_resolver(ss, short: str):
+    """Resolver for TreeTyper: module-level functions and nested helpers by bare name."""
+    mf = pf.module_facts(ss, short)
+
+    def resolve(nm: str):
+        cands = [ff for q, ff in mf.funcs.items() if (q == nm or q.endswith("." + nm)) and ff.cls is None]
+        if len(cands) == 1:
+            return cands[0], flow_of(ss, cands[0])
+        return None
+    return resolve
+
+
+def post_replacement_grammar(gf):
+    """View of decfile.lark AFTER DecayModelAliasReplacement: a `model` node starts
+    with MODEL_NAME (every model_label was replaced or parse() raised: C06.5).
+    Returns a shallow wrapper with `model` words restricted."""
+    import copy as _copy
+    g2 = _copy.copy(gf)
+    g2._words = dict(gf._words)
+    ws = {w for w in gf.rule_words("model") if not (w and w[0] == ("T", "model_label"))}
+    if not ws:
+        raise AnchorMissing("grammar: `model` has no MODEL_NAME-headed alternative")
+    g2._words["model"] = (ws, gf.unbounded("model"))
+    return g2
+
+
+def accessor_sig(ss, gf, short: str, qual: str, param: str, tree_name: str):
+    """(signature string, errors, unknowns, typer) of a tree accessor function."""
+    from ..core.treetypes import TreeTyper
+    ff, flow = fn(ss, short, qual)
+    tt = TreeTyper(gf, module_resolver(ss, short))
+    if param not in ff.params:
+        raise AnchorMissing(f"{short}:{qual} has no parameter {param}")
+    v = tt.eval_function(ff, flow, {param: tt.tree(tree_name)})
+    return v.sig(), list(tt.errors), list(tt.unknown), tt
+
+
+def comp_over_all(flow, e: ast.AST, iter_ok, elt_ok) -> tuple[bool, str]:
+    """Is e (unexpanded) a list/generator comprehension with ONE generator, no `if`,
+    whose iterable satisfies iter_ok(expanded iter) and whose element satisfies
+    elt_ok(elt, binder_name)?  Returns (ok, reason)."""
+    if isinstance(e, ast.Call) and isinstance(e.func, ast.Name) and e.func.id in ("list", "tuple") and len(e.args) == 1:
+        e = e.args[0]
+    if isinstance(e, ast.Name):
+        d = single_def(flow, e)
+        if d is not None and d.kind == "assign" and d.path == ():
+            e = d.value
+    if not isinstance(e, (ast.ListComp, ast.GeneratorExp)):
+        return False, f"not a comprehension: `{txt(e)[:80]}`"
+    if len(e.generators) != 1:
+        return False, "more than one generator"
+    g = e.generators[0]
+    if g.ifs:
+        return False, f"entries are filtered by `{txt(g.ifs[0])[:60]}`"
+    it = flow.expand(g.iter)
+    if not iter_ok(it):
+        return False, f"iterates `{txt(it)[:80]}`"
+    if not isinstance(g.target, ast.Name):
+        return False, "tuple target"
+    if not elt_ok(e.elt, g.target.id):
+        return False, f"element is `{txt(e.elt)[:80]}`"
+    return True, "ok"
